@@ -244,6 +244,49 @@ theorem self_fallback_diverges (fuel : Nat) (refAbs : Bool) (n r a : Int) :
   | zero => rfl
   | succ k ih => unfold hashPartition; exact ih
 
+/-- a keyed call of a hash partitioner does not depend on the fallback, the fuel, the random draw or the
+    fallback's answer, and is in range -/
+theorem hash_partition_keyed (fuel : Nat) (fb : Fallback) (refAbs : Bool) (h n r a : Int) (hn : 0 < n) :
+    ∃ c, hashPartition fuel fb refAbs (some h) n r a = some c ∧ c = hashChoice refAbs h n ∧ 0 ≤ c ∧ c < n := by
+  refine ⟨hashChoice refAbs h n, ?_, rfl, hash_range refAbs h n hn⟩
+  unfold hashPartition; rfl
+
+/-- keyless call with the random or the custom fallback: the fallback's answer, in range when that is -/
+theorem hash_partition_keyless (fuel : Nat) (fb : Fallback) (hfb : fb ≠ .self) (refAbs : Bool) (n r a : Int)
+    (hr : 0 ≤ r ∧ r < n) (ha : 0 ≤ a ∧ a < n) :
+    ∃ c, hashPartition fuel fb refAbs none n r a = some c ∧ 0 ≤ c ∧ c < n := by
+  cases fb with
+  | random => exact ⟨r, by unfold hashPartition; rfl, hr⟩
+  | arg => exact ⟨a, by unfold hashPartition; rfl, ha⟩
+  | self => exact absurd rfl hfb
+
+/-- composition of the two halves of the statement: a keyed message of a hash partitioner (which requires
+    consistency, so ALL partitions are offered) is sent — never failed with an invalid-partition error — to
+    the element of the offered list at the hash's index; leaderless partitions (the `writable` answer), the
+    fallback, the fuel and the random draw play no part. -/
+theorem keyed_hash_message_routed (fuel : Nat) (fb : Fallback) (refAbs : Bool) (h r a : Int)
+    (parts : List Int) (writable : Except Int (List Int)) (hp : parts ≠ []) :
+    ∃ hlt : (hashChoice refAbs h parts.length).toNat < parts.length,
+      partitionMessage true (.ok parts) writable
+        (fun n => match hashPartition fuel fb refAbs (some h) n r a with
+                  | some c => .ok c
+                  | none => .error 0)
+        = .sent (parts[(hashChoice refAbs h parts.length).toNat]'hlt) := by
+  have hn : (0:Int) < parts.length := by
+    have : parts.length ≠ 0 := fun e => hp (List.length_eq_zero_iff.mp e)
+    omega
+  have hr := hash_range refAbs h parts.length hn
+  have hs := (partition_message_spec true (.ok parts) writable
+      (fun n => match hashPartition fuel fb refAbs (some h) n r a with
+                | some c => .ok c
+                | none => .error 0))
+  simp only [↓reduceIte] at hs
+  exact hs.2.2.2 hp (hashChoice refAbs h parts.length) (by unfold hashPartition; rfl) hr.1 hr.2
+example : ∃ hlt, partitionMessage true (.ok [10, 11, 12]) (.ok [11])
+    (fun n => match hashPartition 0 .self true (some 2147483649) n 0 0 with | some c => .ok c | none => .error 0)
+    = .sent ([10, 11, 12][(hashChoice true 2147483649 3).toNat]'hlt) :=
+  keyed_hash_message_routed 0 .self true 2147483649 0 0 [10, 11, 12] (.ok [11]) (by decide)
+
 /-! non-vacuity: concrete instances meeting the hypotheses -/
 example : InU32 2147483648 ∧ (0:Int) < 7 ∧ hashChoice false 2147483648 7 = 2 ∧ hashChoice true 2147483648 7 = 0 := by
   decide
